@@ -43,8 +43,8 @@ PROPS = {
                      'times on the dyadic grid k/16 (exact float arithmetic)'],
     ),
     'C07': dict(
-        modules=['SimProc.Props.C07', 'SimProc.Props.C01W'],
-        prop_files=['SimProc/Props/C07.lean', 'SimProc/Props/C01W.lean'],
+        modules=['SimProc.Props.C07', 'SimProc.Props.C07R', 'SimProc.Props.C01W'],
+        prop_files=['SimProc/Props/C07.lean', 'SimProc/Props/C07R.lean', 'SimProc/Props/C01W.lean'],
         # machines that are shut down / restored / fail pause, resume and cancel their own events
         families=[('env', 300, 6000), ('floorm', 60, 1200), ('floorpf', 20, 400)],
         impl_only_families=[('envdec', 150, 3000)],
